@@ -597,7 +597,13 @@ def handle (fx : String → Bool) (line : String) : String :=
   | "exec" :: args => ExecProbe.run (fx "F17") args
   | "vlit" :: toks => ValProbe.run (if fx "F9" then "1" else "0") toks
   | ["infl", which, h] => InflProbe.run (fx "F2") (fx "F3") which h
-  | "dcopy" :: _ :: prev :: decls => DcProbe.run fx1 prev decls
+  | "dcopy2" :: decls =>
+    let f := if fx "F14" then "1" else "0"
+    let r1 := DcProbe.run f "0" decls
+    if r1 == "panic" then "panic" else
+    let p : DeepCopy.Pkg := decls.map DcProbe.parseDecl
+    let b (prev : Bool) : String := if DeepCopy.compiles (fx "F14") prev p then "ok" else "fail"
+    "run1 " ++ r1 ++ " build=" ++ b false ++ " run2 " ++ DcProbe.run f "1" decls ++ " build=" ++ b true
   | "rdoc" :: id :: names :: types => RdProbe.run fxB id names types
   | "tlit" :: self :: names :: toks => TlProbe.run (if fx "F10" then "1" else "0") self names toks
   | "track" :: hs =>
